@@ -333,6 +333,8 @@ class CircuitCompositeOperation(ICircuitCompositeOperation):
         """
         flatten_circuit_graph: CircuitGraphBranch = CircuitGraphBranch()
         for operation in tqdm(self.decomposed_operations(), desc="Flatten Circuit Graph"):
+            # An operation following a (nested) composite operation, follows the operations contained by that composite
+            operation.relation_link = CircuitCompositeOperation._resolve_composite_references(operation.relation_link)
             CircuitGraphBranch.add_to_graph(
                 graph=flatten_circuit_graph,
                 operation=operation,
@@ -383,6 +385,29 @@ class CircuitCompositeOperation(ICircuitCompositeOperation):
         for i in range(times - 1):
             self.extend(other=original_self.copy())
         return self
+
+    @staticmethod
+    def _resolve_composite_references(link: IRelationLink) -> IRelationLink:
+        """
+        :return: Relation link of which composite-operation reference nodes are replaced by their contained operations.
+        Only applies to 'FOLLOWED_BY' relations (follows the latest of the contained operations), otherwise returns link as is.
+        """
+        reference_nodes: List[ICircuitOperation] = []
+        if isinstance(link, MultiRelationLink):
+            reference_nodes = list(link._reference_nodes)
+        elif link.reference_node is not None:
+            reference_nodes = [link.reference_node]
+        contains_composite: bool = any(isinstance(node, ICircuitCompositeOperation) for node in reference_nodes)
+        if not contains_composite or link.relation_type != RelationType.FOLLOWED_BY:
+            return link
+        resolved_nodes: List[ICircuitOperation] = [operation for node in reference_nodes for operation in node.decomposed_operations()]
+        if len(resolved_nodes) == 0:
+            return link
+        return MultiRelationLink(
+            _reference_nodes=resolved_nodes,
+            _relation_to_group=MultiRelationType.LATEST,
+            _relation_type=RelationType.FOLLOWED_BY,
+        )
 
     def get_sub_composite_operations(self) -> List[ICircuitCompositeOperation]:
         """:return: Array-like of all operations that are of instance ICircuitCompositeOperation."""
